@@ -260,6 +260,20 @@ func ruleCellEscape(c *eng.Ctx) {
 			continue
 		}
 		es := escaperSummary(c.P, fn, cache)
+		if es != escPipe|escNL {
+			// the replacements may be assembled where the summary does not look (a replacer built by a helper from a
+			// table): the helper is evaluated on a text with both characters
+			if got, err := eng.NewEvaluator().Call(fn, []any{"a|b\nc"}, 0); err == nil {
+				if out, ok := got.(string); ok {
+					if strings.Contains(out, "\\|") && !strings.Contains(strings.ReplaceAll(out, "\\|", ""), "|") {
+						es |= escPipe
+					}
+					if !strings.Contains(out, "\n") {
+						es |= escNL
+					}
+				}
+			}
+		}
 		c.Check(es == escPipe|escNL, R, h, fn.Pos(), "handles '|' and newline", "escape helper no longer handles "+missing(es))
 	}
 }
